@@ -40,6 +40,17 @@ var soup = []string{"<", ">", "&", "\"", "'", "&amp;", "&lt;", "&#60;", "]]>", "
 	"\u0001", "\u0008", "\u000b", "\u001f", "\u007f", "\u0085", "\u2028", "\ufffe", "\uffff", "\ufffd", "é", "日本", "😀", "\U0010ffff", "a", "Z", "0", "-", ".", ";", "#", "%", "{", "}", "$", "`"}
 
 func (c *canarySrc) Str(field string) (ret string) {
+	if field == "mark" {
+		return ""
+	}
+	// the appendix treats single-line entries of more than 120 characters specially: some long tooltips / links
+	if (field == "tooltip" || field == "link") && c.r.Intn(4) == 0 {
+		defer func() {
+			if !strings.Contains(ret, "\n") {
+				ret = strings.Repeat("lorem ipsum ", 11) + ret
+			}
+		}()
+	}
 	c.n++
 	tok := fmt.Sprintf("zq%dk", c.n)
 	if field != "md" && field != "code" && field != "tooltip-md" { // markup by design: well-formedness only
@@ -67,7 +78,8 @@ func (c *canarySrc) Str(field string) (ret string) {
 		for i, n := 0, c.r.Intn(4); i < n; i++ {
 			b.WriteString(safe[c.r.Intn(len(safe))])
 		}
-		b.WriteString([]string{tok, "\" " + tok + "=\"1", "' " + tok + "='1", "&" + tok + ";", "**" + tok + "**", "`" + tok + "`", "]]>" + tok}[c.r.Intn(7)])
+		b.WriteString([]string{tok, "\" " + tok + "=\"1", "' " + tok + "='1", "&" + tok + ";", "**" + tok + "**", "`" + tok + "`", "]]>" + tok,
+			"1 < 2 > 0 & " + tok, "<" + tok + ">x</" + tok + ">", "<b>" + tok + "</b> & <i a=\"" + tok + "\">y</i>"}[c.r.Intn(10)])
 		for i, n := 0, c.r.Intn(3); i < n; i++ {
 			b.WriteString(safe[c.r.Intn(len(safe))])
 		}
@@ -276,9 +288,12 @@ func randGradient(r *rand.Rand) string {
 	}
 }
 
+var longLine = strings.Repeat("lorem ipsum ", 11)
+
 var corpus = []struct {
 	name, script string
 }{
+	{"appendix-long-tooltip", "x: {tooltip: \"" + longLine + "1 < 2 & 3 > 2\"}\ny: {link: \"" + longLine + "<b>&\"}\n"},
 	{"class-attr", "x: {class: 'c\" onload=\"alert(1)'}\n"},
 	{"gradient-stop", "y: {style.fill: 'linear-gradient(red 0\"><script>alert(1)</script><stop, blue)'}\n"},
 	{"clip-path-id", "\"a.b\": {\n  shape: sql_table\n  style.border-radius: 5\n  id: int\n}\n"},
@@ -341,6 +356,7 @@ func run(c *hl.Ctx) error {
 	var jobs []*job
 	for _, cs := range corpus {
 		jobs = append(jobs, &job{script: cs.script, opts: svgr.Opts{Dark: -1, Pad: -1}})
+		jobs = append(jobs, &job{script: cs.script, opts: svgr.Opts{Dark: -1, Pad: -1, Appendix: true}})
 		c.Count("svg:corpus")
 	}
 	runJobs(c, jobs)
